@@ -6,6 +6,8 @@ import json
 
 from .. import b2check, core, gen
 
+MONS = ["C08"]
+
 
 def jobs(rng, thorough):
     n = 40000 if thorough else 400
@@ -15,9 +17,16 @@ def jobs(rng, thorough):
     return out
 
 
+def jobs_slow(rng, thorough):
+    """second pass, judged by the monitor only: some writes block inside the driver (write duration is not part of the L4 model)"""
+    n = 6000 if thorough else 120
+    return [(gen.conn_slow_writes(rng), rng.randrange(10 ** 9), rng.choice([0, 0, 3])) for _ in range(n)]
+
+
 def run(ctx: core.Ctx):
     ctx.lean_stage()
     b2check.run_b2(ctx, jobs, ["C08"], label="traffic + lifecycle scenarios")
+    b2check.run_b2(ctx, jobs_slow, MONS, label="slow (blocking) writes, monitor only", accept=False)
     ctx.info["rule"] = ("burst patterns from 1..4 callers, idle gaps so that probes interleave, also sessions with faults and close(); each under a seeded schedule with extra line-level preemptions; a case = one schedule; "
                         "non-trivial = distinct (spec, seed)")
     return ctx.finish()
